@@ -96,6 +96,82 @@ pub fn refine_violations<I: Clone>(
     }
 }
 
+/// "Echo pair" check for in-place, pixel-by-pixel conversions: the image [p0, f(p0), p1, f(p1), ..]
+/// — every pixel followed by a pixel equal to its own converted value — must convert pixel by
+/// pixel exactly like its members do alone. A loop that carries state from one pixel to the next
+/// (a "same as the previous pixel" memo whose key is stale or too coarse) is exposed by exactly
+/// such neighbours, which a lattice walked in lexicographic order never contains.
+/// Metamorphic: no oracle.
+pub fn echo_check(
+    acc: &mut crate::explore::Acc,
+    base: u64,
+    what: &str,
+    px: &[[f32; 3]],
+    conv: &dyn Fn(&[[f32; 3]]) -> Result<Vec<[f32; 3]>, String>,
+    kind: &str,
+    extra: &serde_json::Value,
+) {
+    let m = px.len().min(512);
+    if m == 0 {
+        return;
+    }
+    let Ok(out) = conv(&px[..m]) else { return };
+    if out.len() != m {
+        return;
+    }
+    let bits = |p: [f32; 3]| [p[0].to_bits(), p[1].to_bits(), p[2].to_bits()];
+    let mut seq = Vec::with_capacity(2 * m);
+    for i in 0..m {
+        seq.push(px[i]);
+        seq.push(out[i]);
+    }
+    acc.transitions += (3 * m) as u64;
+    let Ok(r) = conv(&seq) else { return };
+    if r.len() != 2 * m {
+        return;
+    }
+    for i in 0..m {
+        let mut bad = None;
+        if bits(r[2 * i]) != bits(out[i]) {
+            bad = Some((px[i], if i > 0 { out[i - 1] } else { px[i] }, r[2 * i], out[i]));
+        } else if let Ok(single) = conv(&[out[i]]) {
+            if single.len() == 1 && bits(r[2 * i + 1]) != bits(single[0]) {
+                bad = Some((out[i], px[i], r[2 * i + 1], single[0]));
+            }
+        }
+        if let Some((pixel, prev, got, want)) = bad {
+            let mut case = serde_json::json!({"kind": kind, "pair": [crate::explore::px3j(prev), crate::explore::px3j(pixel)]});
+            if let Some(o) = extra.as_object() {
+                for (k, v) in o {
+                    case[k] = v.clone();
+                }
+            }
+            acc.violation(
+                base + i as u64,
+                format!("{what} not-pointwise (depends on the previous pixel)"),
+                format!("pixel {} converts to {} when it follows {}, but to {} on its own", crate::explore::px3s(pixel), crate::explore::px3s(got), crate::explore::px3s(prev), crate::explore::px3s(want)),
+                case,
+            );
+            return;
+        }
+    }
+    acc.bucket(&format!("{what}: echo pairs [p, f(p)] convert like their members alone"), m as u64);
+}
+
+/// Replay of an echo-pair case: convert [prev, pixel] and compare the second output with the
+/// conversion of [pixel] alone.
+pub fn echo_replay(case: &serde_json::Value, conv: &dyn Fn(&[[f32; 3]]) -> Result<Vec<[f32; 3]>, String>) -> (bool, String) {
+    let prev = crate::explore::px3_from(&case["pair"][0]);
+    let pixel = crate::explore::px3_from(&case["pair"][1]);
+    match (conv(&[prev, pixel]), conv(&[pixel])) {
+        (Ok(a), Ok(b)) if a.len() == 2 && b.len() == 1 => {
+            let same = (0..3).all(|k| a[1][k].to_bits() == b[0][k].to_bits());
+            (!same, format!("not-pointwise (depends on the previous pixel) :: {} after {} -> {}, alone -> {}", crate::explore::px3s(pixel), crate::explore::px3s(prev), crate::explore::px3s(a[1]), crate::explore::px3s(b[0])))
+        }
+        (a, b) => (true, format!("conversion failed: {:?} / {:?}", a.err(), b.err())),
+    }
+}
+
 /// Replay side of [`refine_violations`]: rebuild the item list and shape stored in a case.
 pub fn replay_items<I: Clone>(case: &serde_json::Value, one: Vec<I>, from_json: &dyn Fn(&serde_json::Value) -> Vec<I>) -> (Vec<I>, (usize, usize)) {
     let shape = case.get("shape").and_then(|s| s.as_array()).map(|a| (a[0].as_u64().unwrap() as usize, a[1].as_u64().unwrap() as usize)).unwrap_or((1, 1));
